@@ -468,6 +468,9 @@ class FunctionVC:
         I.old_env = {n: models.snapshot(v) for n, v in env.items()}
         if not I.path.taken and not I.path.prefix:
             I.cover('%s.cover.pre' % self.qual)
+            for nm, ok, text, wit in c.ghost.get('static_checks', []):
+                # concrete facts about the compiler's output for this schema
+                I.oblige(nm, z3.BoolVal(bool(ok)), 'data', {'text': text, 'static_witness': wit})
         node = self.fn.node
         a = node.args
         # parameters not named in the contract take their source defaults
@@ -488,8 +491,11 @@ class FunctionVC:
         except Raised as r:
             self.check_raise(I, c, r.exc, env)
             return
-        # normal return
-        I.env = dict(env)
+        # normal return (K3 posts read the final locals; K1/K2 posts read the parameters)
+        if c.kind == 'K3':
+            I.env = dict(I.env)
+        else:
+            I.env = dict(env)
         I.env['result'] = result
         for en, spec in c.raises.items():
             if spec.get('iff') and spec.get('when'):
@@ -501,7 +507,7 @@ class FunctionVC:
         I.cover('%s.cover.ret' % self.qual)
 
     def check_raise(self, I, c, exc, env):
-        I.env = dict(env)
+        I.env = dict(I.env) if c.kind == 'K3' else dict(env)
         I.env['exc'] = exc
         names = [k.__name__ for k in exc.cls.__mro__] if exc.cls is not None else ['*']
         spec = None
